@@ -221,7 +221,7 @@ def history_runs(ctx, CNF, OPB):
         ok = True
         for _ in range(rng.randint(1, 12)):
             want = None
-            kind = rng.choice(['single', 'block', 'mapping', 'binmap', 'comb', 'clause', 'clause', 'unchecked', 'raise', 'bip', 'graph', 'linear', 'linear', 'bip-reuse', 'sparse-reuse'])
+            kind = rng.choice(['single', 'block', 'mapping', 'binmap', 'comb', 'clause', 'clause', 'unchecked', 'raise', 'bip', 'graph', 'linear', 'linear', 'bip-reuse', 'sparse-reuse', 'bulk'])
             if kind in ('bip-reuse', 'sparse-reuse') and not kept:
                 kind = 'bip'
             before = F.number_of_variables()
@@ -231,6 +231,26 @@ def history_runs(ctx, CNF, OPB):
                     F.add_clause(c)
                     mentioned = max([mentioned] + [abs(l) for l in c])
                     ops.append([Sym('clause'), c, True])
+                    continue
+                if kind == 'bulk':
+                    # several clauses / constraints at once, with the default arguments (docs/buildcnf.rst builds formulas this way)
+                    cs = [[rng.choice([1, -1]) * rng.randint(1, before + 3) for _ in range(rng.randint(1, 3))] for _ in range(rng.randint(1, 3))]
+                    how = rng.choice(['add_clauses_from', 'add_clauses_from', 'add_constraints_from'] if fc is OPB else ['add_clauses_from'])
+                    if how == 'add_clauses_from':
+                        F.add_clauses_from(cs)
+                    else:
+                        F.add_constraints_from([[(1, l) for l in c] + ['>=', 1] for c in cs])
+                    ctx.tally('history op', 'bulk ' + how)
+                    top = max(abs(l) for c in cs for l in c)
+                    if F.number_of_variables() < top:
+                        ctx.violation('counterexample', '%s(%s) with default arguments left the formula with %d variables: a literal is out of range' % (how, cs, F.number_of_variables()),
+                                      dict(input=dict(ops=str(ops), call=how, clauses=cs, formula_class=fc.__name__), numvar=F.number_of_variables()), True,
+                                      site='builder-range', cls=how)
+                        ok = False
+                        break
+                    for c in cs:
+                        mentioned = max([mentioned] + [abs(l) for l in c])
+                        ops.append([Sym('clause'), c, True])
                     continue
                 if kind == 'linear':
                     # a constraint builder called with literals beyond the current count (checked insertion):
